@@ -36,9 +36,9 @@ CHECKS = {
   note="Trusted: the reference evaluator harness/c06/ref.go, the rendezvous model that recognises the recorded deadlock class, the Go simulator for the faithful opcodes used.",
   technique="property-based testing (rapid): reference-model oracle (dataflow evaluation) + metamorphic relation across partitions"),
  "C07": dict(
-  text="Generated-input search for nondeterminism: grammar-generated BASM sources (sections, CPs, fragments, macros, dynamic opcodes, cluster output, chooser/pass/optimisation flags), neural nets (both neuralbond modes, then basm), quantum circuits (bmqsim flavours, then basm), Go-subset programs (bondgo incl. -mpm) and machines for HDL generation are each run N times as fresh child processes of the real CLIs with varied GOMAXPROCS, and twice in-process on fresh instances; every output file, stdout and exit status must be byte-identical. Found five map-iteration-order nondeterminisms (all fixed in /repo). The bondmachine entry also draws board flavours that write bondmachine_main.v, with and without BMAPI (uartusb, aximm, all ports mapped) and UART pin maps; generated BASM sources carry shared objects with boundary parameters.",
+  text="Generated-input search for nondeterminism: grammar-generated BASM sources (sections, CPs, fragments, macros, dynamic opcodes, cluster output, chooser/pass/optimisation flags), neural nets (both neuralbond modes, then basm), quantum circuits (bmqsim flavours, then basm), Go-subset programs (bondgo incl. -mpm) and machines for HDL generation are each run N times as fresh child processes of the real CLIs with varied GOMAXPROCS, and twice in-process on fresh instances; every output file, stdout and exit status must be byte-identical. Found five map-iteration-order nondeterminisms (all fixed in /repo). The bondmachine entry also draws board flavours that write bondmachine_main.v, with and without BMAPI (uartusb, aximm, all ports mapped) and UART pin maps; generated BASM sources carry shared objects with boundary parameters. The in-process basm and neuralbond entries also run under the Go race detector (a report in the tool's code is a violation: goroutines sharing what goes into the artefact).",
   note="Trusted: the byte comparison (timestamps stripped, crash dumps cut after the panic line). A nondeterminism with per-run probability p is missed with (1-p)^(N-1); rarer orders are out of reach.",
-  technique="property-based testing (rapid): metamorphic run-to-run equality over repeated fresh-process and in-process executions of generated inputs"),
+  technique="property-based testing (rapid): metamorphic run-to-run equality over repeated fresh-process and in-process executions of generated inputs; race detector as sanitizer on the in-process entries"),
  "C08": dict(
   text="Property-based testing of the number library: (a) strings generated from every notation's regular language (plus mutations and a corpus) are run through every matcher: at most one may accept; (b) export/import round-trip on bits, type and width for every supported type and boundary-weighted values, ExportBinaryNBits/ExportVerilogBinary width laws; (c) sized literals import to the stated width or are rejected. Native fuzzing of ImportString in the thorough tier. Found D2 and the sized-hex storage defect (both fixed) and four round-trip defects recorded as known findings.",
   note="Trusted: the deterministic matcher scan in harness/c08 (ImportString's map walk is bypassed), bit-level comparison. Disjointness of the notations is searched, not proved.",
@@ -52,9 +52,9 @@ CHECKS = {
   note="Trusted: the reflection walk with its documented exemptions (nil=empty slice, caches set by Write_verilog), the registry reset that makes each case independent.",
   technique="property-based testing (rapid): round-trip oracle with reflection-driven structural equality and field perturbation; bounded sweep over opcodes"),
  "C12": dict(
-  text="Property-based testing of the Go-subset compiler through its real CLI: grammar-generated programs (register and RAM variables, + * ==, ++/--, if/for/switch, inlined functions, IO, a share of unsupported operators that must be rejected, -mpm workers and channels) are compiled as child processes under a hard deadline for several forced schedule plans (verif-tagged scheduling points + GOMAXPROCS): the compiler must terminate, emit byte-identical assembly and machine JSON across plans, and — where the emitted machine uses faithfully simulated opcodes — write the same output streams as an independent AST evaluator of the source with wrap-around. Found D8 (hang) and a map-order nondeterminism (both fixed) and four miscompilation classes recorded as known findings. Programs whose only applicable recorded finding is the je placeholder are run again with je executed as jump-if-equal (a difference that remains is a violation); one case in four (half of the -mpm cases) also passes -show-requirements, which must not change the artefacts.",
-  note="Trusted: the reference evaluator harness/c12/ref.go, the hang classifier (goroutine dump), the faithful-opcode list for semantic verdicts. Programs compiling to r2m/m2r/channel opcodes get termination and determinism verdicts only.",
-  technique="grammar-based property testing (rapid) of the real CLI: reference-interpreter differential, schedule fuzzing through verif-tagged hook points, run-to-run byte equality"),
+  text="Property-based testing of the Go-subset compiler through its real CLI: grammar-generated programs (register and RAM variables, + * ==, ++/--, if/for/switch, inlined functions, IO, a share of unsupported operators that must be rejected, -mpm workers and channels) are compiled as child processes under a hard deadline for several forced schedule plans (verif-tagged scheduling points + GOMAXPROCS): the compiler must terminate, emit byte-identical assembly and machine JSON across plans, and — where the emitted machine uses faithfully simulated opcodes — write the same output streams as an independent AST evaluator of the source with wrap-around. Found D8 (hang) and a map-order nondeterminism (both fixed) and four miscompilation classes recorded as known findings. Programs whose only applicable recorded finding is the je placeholder are run again with je executed as jump-if-equal (a difference that remains is a violation); one case in four (half of the -mpm cases) also passes -show-requirements, which must not change the artefacts. Half of the programs are compiled once more by the CLI built with the Go race detector (a report inside the compiler is a violation; its output must equal the other runs').",
+  note="Trusted: the reference evaluator harness/c12/ref.go, the hang classifier (goroutine dump), the faithful-opcode list for semantic verdicts. Programs compiling to opcodes the simulator does not model faithfully get termination and determinism verdicts only (channels are modelled).",
+  technique="grammar-based property testing (rapid) of the real CLI: reference-interpreter differential, schedule fuzzing through verif-tagged hook points, run-to-run byte equality, race detector as sanitizer"),
  "C13": dict(
   text="The LIFO/FIFO module rendered by BmStack.WriteHDL for generated configurations is executed by /verif's Verilog interpreter under handshake-abiding agents whose per-cycle choices are generated (rapid) and, for the smallest configurations, enumerated exhaustively with memoisation of (circuit registers, agent states, abstract sequence); every cycle is checked against an abstract sequence: discipline, no accept when full / return when empty, flags, ack discipline, bounded wait. The exhaustive slices that closed (frontier emptied) are listed in the evidence; larger ones are bounded by a state budget and sampled.",
   note="Trusted: /verif's Verilog interpreter (2-state, power-up zero; its expression evaluator is property-tested against math/big, and it is validated on hand-derived traces), the agent protocol model. Exhaustiveness holds only for the named slices.",
